@@ -7,6 +7,7 @@ open Goml Goml.Graph Goml.Vis
 def decForm : String → Option Form
   | "fn" => some .fn | "ty" => some .ty | "lit" => some .lit | "ctor" => some .ctor
   | "bound" => some .bound | "dyn" => some .dynT | "unq" => some .unq | "nofn" => some .nofn
+  | "smeth" => some .smeth | "sself" => some .sself | "tmeth" => some .tmeth | "flow" => some .flow
   | _ => none
 
 def decShape : String → Option Shape
@@ -15,8 +16,9 @@ def decShape : String → Option Shape
   | _ => none
 
 def decItem : Sexp → Option (Sum Use ImplD)
-  | .list [.atom "use", f, .atom form, .atom target, .atom q] => do
-    pure (.inl { file := ← f.nat?, form := ← decForm form, target := target, qual := q == "q" })
+  | .list [.atom "use", f, .atom form, .atom target, .atom q, .atom via] => do
+    pure (.inl { file := ← f.nat?, form := ← decForm form, target := target, qual := q == "q",
+                 via := if via == "-" then "" else via })
   | .list [.atom "impl", f, .atom kind, .atom tr, .atom shape, .atom head, .atom arg, .atom which] => do
     pure (.inr { file := ← f.nat?, inherent := kind == "inherent", tr := tr, shape := ← decShape shape,
                  head := if head == "-" then "" else head, arg := if arg == "-" then "" else arg, which := which })
